@@ -23,7 +23,7 @@ import (
 // result.json. Exactly these seven functions are replaced:
 //
 //	(*k256/impl.Fp).SetBytes        len != 32 -> 0, receiver untouched (as the real code); else 1
-//	                                and the receiver becomes SOME field element; all-zero bytes
+//	                                and the receiver becomes SOME field element (see verifSomeFp); all-zero bytes
 //	                                give an element for which IsZero is 1 (nothing else is assumed
 //	                                about which bytes decode to zero)
 //	(*k256/impl.Fp).IsZero          for an element produced by the SetBytes contract and not
@@ -56,6 +56,8 @@ type verifFpCall struct {
 }
 
 type verifGhost struct {
+	nElems int // abstract field elements produced so far (verifSomeFp)
+
 	setBytes                [2]verifFpCall
 	nSetBytes               int
 	isZeroGhost, isZeroReal int // IsZero calls answered from the ghost table / by the real code
@@ -86,7 +88,20 @@ type verifGhost struct {
 
 var verifG verifGhost
 
-func verifSomeFp(f *k256Impl.Fp) { f.SetLimbs(verifU64s(k256Impl.FpLimbs)) }
+// verifSomeFp makes *f "some field element". No code that remains un-replaced looks inside a field
+// element (it is only copied by Set/Select, and Z is only ever written by SetOne/SetZero), so the
+// element just has to be (a) not fixed and (b) recognisable: the k-th element produced on a path
+// is one of the two constants 2k+2, 2k+3, chosen by a fresh symbolic bit. (A fully symbolic
+// 256-bit value would have to go through the Montgomery conversion of SetLimbs/SetBytes, the very
+// 256-bit multiplication that is not encodable: equalities between such terms time the solver out.)
+func verifSomeFp(f *k256Impl.Fp) {
+	k := uint64(verifG.nElems)
+	verifG.nElems++
+	var c0, c1 k256Impl.Fp
+	c0.SetUint64(2*k + 2)
+	c1.SetUint64(2*k + 3)
+	f.Select(ct.Choice(verifU8()&1), &c0, &c1)
+}
 
 func verifFpSetBytes(f *k256Impl.Fp, data []byte) ct.Bool {
 	k := verifG.nSetBytes
